@@ -148,6 +148,10 @@ func (f *FieldCopyToGenerator) genZeroValue(fieldName string) func(*j.Group) {
 				Id(f.i.WithType(f.ValueCastToType)).Parens(j.Id(fieldName)).Op("==").Id(f.ZeroValue)
 		} else if f.ZeroValue != "" {
 			g.Id("v.Null").Op("=").Id(f.i.WithType(f.ValueCastToType)).Parens(j.Id(fieldName)).Op("==").Id(f.ZeroValue)
+		} else if f.OneOfName != "" && !f.IsNullable {
+			// A oneof branch held by value which has no zero literal (a duration): an inactive branch reads as
+			// zero from the branch stub and must be null like any other inactive branch.
+			g.Id("v.Null").Op("=").Id(f.i.WithType(f.ValueCastToType)).Parens(j.Id(fieldName)).Op("==").Lit(0)
 		} else {
 			g.Id("v.Null").Op("=").False()
 		}
